@@ -105,13 +105,18 @@ impl AsyncRead for Scripted {
             0
         } else if want <= 1 {
             [0, 3][self.choose(2)]
-        } else {
+        } else if want <= 3 {
             self.choose(4)
+        } else {
+            // 4, 5: everything but the last one / two bytes (a read that ends inside the tail of a frame)
+            self.choose(6)
         };
         let n = match c {
             0 => want,
             1 => 1,
             2 => (want / 2).max(1),
+            4 => want - 1,
+            5 => want - 2,
             _ => {
                 self.pended_r = true;
                 cx.waker().wake_by_ref();
@@ -601,24 +606,35 @@ fn tamper(ops: &[Op], st: &mut (u64, u64, Option<(String, serde_json::Value)>)) 
         let w = Waker::noop();
         let mut cx = Context::from_waker(&w);
         let mut outcome = "eof";
-        for _ in 0..100_000 {
-            let mut rb = ReadBuf::new(&mut buf);
-            match Pin::new(&mut s.reader).poll_read(&mut cx, &mut rb) {
-                Poll::Ready(Ok(())) => {
-                    if rb.filled().is_empty() {
+        // a reader that panics on tampered input is a verdict of its own (the node aborts on a panic)
+        let panicked = core::catch(|| {
+            for _ in 0..100_000 {
+                let mut rb = ReadBuf::new(&mut buf);
+                match Pin::new(&mut s.reader).poll_read(&mut cx, &mut rb) {
+                    Poll::Ready(Ok(())) => {
+                        if rb.filled().is_empty() {
+                            break;
+                        }
+                        got.extend_from_slice(rb.filled());
+                    }
+                    Poll::Ready(Err(_)) => {
+                        outcome = "error";
                         break;
                     }
-                    got.extend_from_slice(rb.filled());
-                }
-                Poll::Ready(Err(_)) => {
-                    outcome = "error";
-                    break;
-                }
-                Poll::Pending => {
-                    outcome = "pending";
-                    break;
+                    Poll::Pending => {
+                        outcome = "pending";
+                        break;
+                    }
                 }
             }
+        })
+        .err();
+        if let Some(p) = panicked {
+            st.2.get_or_insert((
+                format!("[tamper] after {e:?} the reader panicked instead of failing or reaching end-of-stream: {}; ops [{}]", p.lines().next().unwrap_or(""), ops.iter().map(op_name).collect::<Vec<_>>().join(", ")),
+                json!({"harness":"c13-tamper","ops": ops.iter().map(op_name).collect::<Vec<_>>(), "edit": format!("{e:?}")}),
+            ));
+            continue;
         }
         st.1 += (outcome == "error") as u64;
         let common = got.iter().zip(plain.iter()).take_while(|(a, b)| a == b).count();
